@@ -2,7 +2,7 @@
    allocates no ids.   iter_bound P s = c*(U+2) + U + 2,  c = number of classes of s,
    U = sum of c^arity over the relations (incl. type sets) that occur in s or in a conclusion. *)
 From Coq Require Import List NArith Bool.
-From Engine Require Import Model FactsBasic FactsInv FactsOps FactsClose FactsIds FactsTerm FactsFam FactsRun Run ExSemilattice.
+From Engine Require Import Model FactsBasic FactsInv FactsOps FactsClose FactsIds FactsTerm FactsRoots FactsFam FactsRun Run ExSemilattice.
 Import ListNotations.
 Local Open Scope N_scope.
 
@@ -24,6 +24,24 @@ Theorem C06_no_new_ids : forall P cond fuel s r b,
   next_id r = next_id s /\ (nclasses r <= nclasses s)%nat.
 Proof. exact no_new_ids. Qed.
 Print Assumptions C06_no_new_ids.
+
+(* per-type form ("the number of elements of every type ... is at most what it was before"): every
+   representative after close_until was a representative before, hence for any classification [ty]
+   of ids into types (an id's type is fixed at allocation, and none is allocated) the number of
+   classes with a representative of that type does not grow *)
+Theorem C06_roots_subset : forall P cond fuel s r b,
+  wf_rules (fp_rules P) -> no_defs P -> Idem s ->
+  exec_close_until fuel P cond s = Some (r, b) ->
+  forall x, is_root r x = true -> is_root s x = true.
+Proof. exact roots_subset. Qed.
+Print Assumptions C06_roots_subset.
+
+Theorem C06_no_new_ids_per_type : forall P cond fuel s r b (ty : N -> bool),
+  wf_rules (fp_rules P) -> no_defs P -> Idem s ->
+  exec_close_until fuel P cond s = Some (r, b) ->
+  next_id r = next_id s /\ (nclasses_of ty r <= nclasses_of ty s)%nat.
+Proof. exact no_new_ids_per_type. Qed.
+Print Assumptions C06_no_new_ids_per_type.
 
 Theorem C06_reach_WF : forall P A s, wf_rules (fp_rules P) -> Reach P A s -> WF s.
 Proof. exact Reach_WF. Qed.
@@ -49,3 +67,13 @@ Example C06_ex_run :
   | _ => false
   end = true /\ count_loop 56 poset (fun _ => false) (canonicalize poset_st) = Some 2.
 Proof. vm_compute. split; reflexivity. Qed.
+
+(* per-type count on the same run: ids 0..2 of one type; classifying by parity, the even ids {0,2}
+   hold 2 classes before and at most 2 after *)
+Example C06_ex_per_type :
+  match exec_close_until (iter_bound poset poset_st) poset (fun _ => false) poset_st with
+  | Some (r, _) => Nat.leb (nclasses_of N.even r) (nclasses_of N.even poset_st)
+                   && Nat.eqb (nclasses_of N.even poset_st) 2
+  | None => false
+  end = true.
+Proof. vm_compute. reflexivity. Qed.
